@@ -251,12 +251,21 @@ def strategy(n):
         + ([C("set_distance_mode", "relative")] if t[5] else [])
         + [dict(C(t[3], F=600.0, **{"xyz"[(t[0] + t[1]) % 3]: t[4]}),
                 _poison="late:unmentioned_axis_parked_outside_box")])
+    # tool-power limits, a hook that derives S from F, a valid slow move and
+    # then a valid FAST one: rejected because of the word the hook produced
+    hooked = st.tuples(st.sampled_from(["move", "move", "move_absolute"]), small,
+                       st.sampled_from([3000.0, 4000.0, 2500.0]), st.booleans()).map(
+        lambda t: [C("set_bounds", "tool-power", 0, 100), {"op": "install_power_hook"},
+                   C("move", x=0.5, F=1200.0)]
+        + ([C("set_distance_mode", "relative")] if t[3] else [])
+        + [dict(C(t[0], x=t[1], F=t[2]), _poison="late:hook_makes_S_invalid")])
     one = item.map(lambda c: [c])
     return st.fixed_dictionaries({
         "setup": setup_strategy(),
         # (one_of() flattens nested alternatives and picks uniformly among all
         # leaves: an explicit draw gives the pair a real weight of 1 in 8)
-        "calls": st.lists(st.integers(0, 7).flatmap(lambda k: parked if k == 0 else one),
+        "calls": st.lists(st.integers(0, 8).flatmap(
+            lambda k: parked if k == 0 else hooked if k == 1 else one),
                           min_size=1, max_size=n).map(
             lambda ll: [c for l in ll for c in l])})
 
@@ -325,7 +334,7 @@ def run_case(case, cl=None):
         LAST["known"] = bool(
             emitted and not d and real["op"] == "move_absolute"
             and LAST.get("hook") and "tool-power" in str(exc)
-            and not any(k_.upper() == "S" for k_ in real.get("kw", {}))
+            and _derived_power_in(real, str(exc))
             and all(l.split(b";")[0].strip() in (b"G90", b"G91")
                     for l in emitted.splitlines() if l.strip()))
         if emitted:
@@ -343,6 +352,16 @@ def run_case(case, cl=None):
         raise Violation(f"final state differs from a builder that never saw the "
                         f"rejected calls: {d!r}")
     return cl
+
+
+def _derived_power_in(real, message):
+    """True if the rejected value is the S the hook derived (F/20), not a word
+    the caller wrote."""
+    f = next((v for k_, v in real.get("kw", {}).items() if k_.upper() == "F"), None)
+    try:
+        return f is not None and (str(f / 20.0) in message or repr(f / 20.0) in message)
+    except Exception:
+        return False
 
 
 LAST = {}
